@@ -26,6 +26,7 @@ func c07Gen(rng *verifsim.RNG, idx int, tier string) *Plan {
 		s.RDNSS = []RDNSSSpec{{Servers: []string{"2001:db8::53"}}}
 	}
 	p.Class = "exact"
+	p.Nodes[0].Metrics = []string{"prom", "mem"}[rng.Intn(2)]
 	horizon := rng.Dur(3*time.Second, 40*time.Second)
 	nh := rng.Range(1, 6)
 	t := int64(0)
